@@ -269,18 +269,24 @@ Definition filter_out_same_type (r : reqs) (opts : list itype) (cs : list cand) 
   remove_by_price_mv r (same_type_max_price opts cs) opts.
 
 (* one probe of the binary search: computeConsolidation + filterOutSameInstanceType (the no-op evaluator approves) *)
-Definition multi_probe (flag : bool) (cs : list cand) (s : sim) : option decision :=
+(* Evaluator.ApproveCommand / CanPassThreshold as parameters: the default no-op evaluator approves everything; the
+   balanced evaluator (Balanced NodePools) may reject a command, never change it. *)
+Definition approver := list cand -> decision -> bool.
+Definition approve_all : approver := fun _ _ => true.
+
+Definition multi_probe_ev (ap : approver) (flag : bool) (cs : list cand) (s : sim) : option decision :=
   match compute flag cs s with
   | NoOp => None
-  | Delete => Some Delete
+  | Delete => if ap cs Delete then Some Delete else None
   | Replace r opts =>
     let '(opts', ok) := filter_out_same_type r opts cs in
-    if ok then match opts' with [] => None | _ => Some (Replace r opts') end else None
+    if ok then match opts' with [] => None | _ => if ap cs (Replace r opts') then Some (Replace r opts') else None end else None
   end.
+Definition multi_probe := multi_probe_ev approve_all.
 
 (* firstNConsolidationOption: [sims k] is the simulation for candidates[0..k). Returns the number of candidates and
    the decision of the last saved command. *)
-Fixpoint first_n_go (fuel : nat) (flag : bool) (cs : list cand) (sims : nat -> sim) (lo hi : Z)
+Fixpoint first_n_go (ap : approver) (fuel : nat) (flag : bool) (cs : list cand) (sims : nat -> sim) (lo hi : Z)
                     (last : option (nat * decision)) : option (nat * decision) :=
   match fuel with
   | O => last
@@ -288,28 +294,32 @@ Fixpoint first_n_go (fuel : nat) (flag : bool) (cs : list cand) (sims : nat -> s
     if hi <? lo then last else
     let mid := (lo + hi) / 2 in
     let k := Z.to_nat (mid + 1) in
-    match multi_probe flag (firstn k cs) (sims k) with
-    | Some d => first_n_go f flag cs sims (mid + 1) hi (Some (k, d))
-    | None => first_n_go f flag cs sims lo (mid - 1) last
+    match multi_probe_ev ap flag (firstn k cs) (sims k) with
+    | Some d => first_n_go ap f flag cs sims (mid + 1) hi (Some (k, d))
+    | None => first_n_go ap f flag cs sims lo (mid - 1) last
     end
   end.
-Definition first_n (flag : bool) (cs : list cand) (sims : nat -> sim) : option (nat * decision) :=
+Definition first_n_ev (ap : approver) (flag : bool) (cs : list cand) (sims : nat -> sim) : option (nat * decision) :=
   let n := Z.of_nat (length cs) in
   if n <? 2 then None else
   let maxp := Z.min n 100 in
   let hi := if n <=? maxp then n - 1 else maxp in
-  first_n_go (S (length cs)) flag cs sims 1 hi None.
+  first_n_go ap (S (length cs)) flag cs sims 1 hi None.
+Definition first_n := first_n_ev approve_all.
 
 (* ---------------------------------------------------------------- single-node *)
 (* the candidate loop: the first candidate (in the order tried) whose decision is not NoOp *)
-Fixpoint single (flag : bool) (cs : list (cand * sim)) : option (cand * decision) :=
+Fixpoint single_ev (ap : approver) (can_pass : cand -> bool) (flag : bool) (cs : list (cand * sim)) : option (cand * decision) :=
   match cs with
   | [] => None
-  | (c, s) :: t => match compute flag [c] s with
-                   | NoOp => single flag t
-                   | d => Some (c, d)
-                   end
+  | (c, s) :: t =>
+      if negb (can_pass c) then single_ev ap can_pass flag t else
+      match compute flag [c] s with
+      | NoOp => single_ev ap can_pass flag t
+      | d => if ap [c] d then Some (c, d) else single_ev ap can_pass flag t
+      end
   end.
+Definition single := single_ev approve_all (fun _ => true).
 
 (* ---------------------------------------------------------------- emptiness *)
 Definition emptiness (cs : list cand) : list cand := filter is_empty cs.
@@ -346,4 +356,34 @@ Definition validate_empty (proposed : list string) (current : list (cand * bool)
   match filter (fun cn : cand * bool => mem (c_name (fst cn)) proposed && is_empty (fst cn) && negb (snd cn)) current with
   | [] => None
   | l => Some (map (fun cn : cand * bool => c_name (fst cn)) l)
+  end.
+
+(* ---------------------------------------------------------------- who is a candidate, and budgets *)
+(* what consolidation.ShouldDisrupt / Emptiness.ShouldDisrupt read of a disruptable node *)
+Record cstate := mkCSt {
+  st_static : bool;          (* NodePool.Spec.Replicas != nil *)
+  st_it_known : bool;        (* the node's instance type is in the NodePool's catalog *)
+  st_has_ct : bool; st_has_zone : bool;   (* capacity-type / zone label present *)
+  st_after_set : bool;       (* ConsolidateAfter is not Never *)
+  st_when_empty : bool;      (* ConsolidationPolicy == WhenEmpty *)
+  st_consolidatable : bool   (* NodeClaim condition Consolidatable is true *)
+}.
+Definition should_disrupt_consolidation (st : cstate) (empty : bool) : bool :=
+  negb (st_static st) && st_it_known st && st_has_ct st && st_has_zone st && st_after_set st &&
+  negb empty && negb (st_when_empty st) && st_consolidatable st.
+Definition should_disrupt_emptiness (st : cstate) (empty : bool) : bool :=    (* no buffer pods: CapacityBuffer is off *)
+  negb (st_static st) && st_after_set st && empty && st_consolidatable st.
+
+(* disruptionBudgetMapping[pool] (absent = 0) *)
+Definition budget_of (m : list (string * Z)) (p : string) : Z := match assoc p m with Some z => z | None => 0 end.
+(* single-node: candidates of a pool without budget are skipped (no decrement) *)
+Definition single_budget (m : list (string * Z)) (cs : list (string * string)) : list string :=
+  map fst (filter (fun np : string * string => negb (budget_of m (snd np) =? 0)) cs).
+(* multi-node / emptiness: in order, take a candidate while its pool has budget left, decrementing *)
+Fixpoint multi_budget (m : list (string * Z)) (cs : list (string * string)) : list string :=
+  match cs with
+  | [] => []
+  | (n, p) :: t =>
+      if budget_of m p =? 0 then multi_budget m t
+      else n :: multi_budget ((p, budget_of m p - 1) :: filter (fun kv : string * Z => negb (String.eqb (fst kv) p)) m) t
   end.
